@@ -8,6 +8,13 @@ TRUSTED_BASE = [
 ]
 
 TABLE = {
+    "C03": {
+        "obligations": ["C03_plain", "C03_wrapped", "C03_wrapped_inner", "C03_too_long"],
+        "what": "Theorems: the model's message-set encoder (mirror of produce.rs:155-242: back-patched size and CRC, Option<&[u8]> encoding, per-partition wrapper) equals the specification encoder, and the specification's strict parser (exact sizes, magic 0, CRC-32 over magic..value, null<->-1, nothing left over) inverts it for every list of records whose sizes fit the 32-bit fields; with a codec the partition data is exactly one wrapper (attribute = codec id, null key, value = compressor output on the plain set). Correspondence + judge: real produce_messages with all payload shapes and codecs; every emitted partition set is parsed by Spec.parseMessageSet and wrappers are opened with the independent Lean inflate / snappy decoders (flate2 and snap themselves are parameters of the theorems).",
+        "rule": "scenario = random cluster + 1-3 produce_messages calls (codec none/gzip/snappy, acks 0/1/-1) of 1-10 records with null/empty/small/multi-KiB/repetitive keys and values over 1-3 topics x 1-4 partitions; non-trivial = a produce request reached a broker; distinct = distinct (operation, result) sequences",
+        "assumptions": ["each message and each set is shorter than 2^31 bytes (beyond that the Rust code returns CodecError or wraps; theorem C03_too_long covers the first)",
+                        "flate2 (gzip) and snap (raw snappy) are external: abstract compressor in the theorems, checked in the run by decompressing their output with the independent Lean decoders"],
+    },
     "C12": {
         "obligations": ["C12_explicit", "C12_keyed", "C12_keyed_value", "C12_keyed_pure", "C12_keyless_available",
                         "C12_rotation", "C12_unknown", "C12_nothing_available", "C12_no_partitions",
